@@ -114,3 +114,18 @@ Theorem C18_pragma_line_vs_argument : forall k body arg,
     Ok (PLevel (match arg with Some a => a | None => Z.of_N k end)).
 Proof. exact pragma_line_vs_argument. Qed.
 Print Assumptions C18_pragma_line_vs_argument.
+
+(* running a segment script ([query] = the query evaluation at the chosen level,
+   any function): every embedded expression's name is bound to the result of
+   its trimmed query, PBK_BUFR_MESSAGE / PBK_FILENAME to the message and the
+   file name, and exactly the names PBK_0 .. PBK_(n-1) plus those two are bound *)
+Theorem C18_run_binds : forall (R : Type) segs (query : list byte -> R) msg filename,
+  let keys := first_occ (exprs segs) in
+  let vars := prepare_variables query msg filename (snd (spec_segments segs)) in
+  (forall e, In (Embed e) segs ->
+             lookup_last (out_seg keys (Embed e)) vars = Some (query (strip e))) /\
+  lookup_last name_message vars = Some msg /\
+  lookup_last name_filename vars = Some filename /\
+  map fst vars = map varname (map N.of_nat (seq 0 (length keys))) ++ [name_message; name_filename].
+Proof. intros R. exact (@run_binds R). Qed.
+Print Assumptions C18_run_binds.
